@@ -88,6 +88,20 @@ impl Buffers {
             udp: vec![0xaa; payload.max(512) as usize],
         }
     }
+
+    /// A caller may hand the server a UDP buffer larger than the
+    /// configured payload size (the API only asks for "at least");
+    /// the size limits must then come from the server, not the buffer.
+    pub fn roomy(payload: u16, rng: &mut crate::rng::Rng) -> Self {
+        let min = payload.max(512) as usize;
+        let udp = match rng.below(4) {
+            0 => min,
+            1 => min + 1 + rng.below(64),
+            2 => min + rng.below(65536 - min),
+            _ => 65535,
+        };
+        Buffers { tcp: vec![0xaa; 65535], udp: vec![0xaa; udp] }
+    }
 }
 
 /// Handles one request. `Ok(None)` = no response.
